@@ -39,7 +39,7 @@ var initAllowPrefixes = []string{
 	"io", "bytes", "unicode/utf8", "strconv", "math/bits", "bufio", "sort", "strings",
 	"encoding/binary", "encoding/hex", "container/heap", "slices", "path", "context",
 	"google.golang.org/protobuf/encoding/protowire", "google.golang.org/protobuf/internal/errors",
-	"io/fs", "internal/oserror", "syscall", "math",
+	"io/fs", "internal/oserror", "syscall", "math", "github.com/fxtlabs/primes",
 }
 
 // initSkipped: packages whose initialisers are never evaluated (runtime internals).
